@@ -115,6 +115,7 @@ type ChunkReader struct {
 	EOFAtPass   int // in this pass (1 or 2) report EOF EOFShort bytes early
 	EOFShort    int
 	FlipAtPass  int // in this pass, flip the byte at offset FlipOff
+	FlipOnward  bool // ... and in every later pass too (the source has changed for good)
 	FlipOff     int
 	ExtraPass   int // in this pass, deliver ExtraBytes more bytes after the data
 	ExtraBytes  int
@@ -218,7 +219,7 @@ func (r *ChunkReader) Read(p []byte) (int, error) {
 		n = end - r.pos
 	}
 	copy(p, r.Data[r.pos:r.pos+n])
-	if r.FlipAtPass == r.Pass && r.FlipOff >= r.pos && r.FlipOff < r.pos+n {
+	if (r.FlipAtPass == r.Pass || r.FlipOnward && r.FlipAtPass > 0 && r.Pass > r.FlipAtPass) && r.FlipOff >= r.pos && r.FlipOff < r.pos+n {
 		p[r.FlipOff-r.pos] ^= 0x55
 		r.fire("reader-different-bytes")
 	}
